@@ -745,10 +745,11 @@ func sectionScripted(rng *vh.Rng) {
 		}
 		res.Eval(sec, fmt.Sprint(c))
 		if c.LastChunk && (got != c.New || first != "r0") {
-			// class of F59: ONE (last) chunk, growth between the chunk iterator's EOF answer and the position
-			// getPosForward builds in its `idx == n` branch from a fresh Count(); the model (rGetObs) shows the same
+			// class of F59 (repaired by 008ef8e; a recurrence is tagged): ONE (last) chunk, growth between the chunk
+			// iterator's EOF answer and the position getPosForward builds in its `idx == n` branch from a fresh Count();
+			// the model (rGetObs, Props.C03.tail_no_skip_last_chunk) delivers every record
 			res.SpecFail(vh.SpecFailure{Section: "scripted", Kind: "tail-skip", Input: c, Impl: fmt.Sprintf("%d records, first %s", got, first),
-				Spec: fmt.Sprintf("%d records, first r0", c.New), Finding: "F59", ImplEqModel: got == c.Old, Model: fmt.Sprintf("%d records (Props.C03.cex_tail_skip_last_chunk)", c.Old),
+				Spec: fmt.Sprintf("%d records, first r0", c.New), Finding: "F59", ImplEqModel: false, Model: fmt.Sprintf("%d records (Props.C03.tail_no_skip_last_chunk)", c.New),
 				What: "a ranged tail reader at the end of the last chunk skips the records a writer confirmed between the chunk iterator's end-of-data answer and the count getPosForward reads for the position (idx == n branch)"})
 			continue
 		}
